@@ -2,6 +2,7 @@
 //! values; every verdict is taken by TLC from the TLA+ specifications in /verif/spec.
 mod alloc;
 mod gen;
+mod long;
 mod par;
 mod policy;
 mod reader;
@@ -159,6 +160,10 @@ fn main() {
         "iters" => {
             let a = &args[1..];
             wi::cmd_iters(&arg(a, "--out").unwrap_or_else(|| usage()), arg(a, "--seed").map(|s| s.parse().unwrap()).unwrap_or(1), a.iter().any(|x| x == "--thorough"));
+        }
+        "long" => {
+            let a = &args[1..];
+            long::cmd_long(&arg(a, "--out").unwrap_or_else(|| usage()), arg(a, "--seed").map(|s| s.parse().unwrap()).unwrap_or(1), a.iter().any(|x| x == "--thorough"));
         }
         "par-record" => {
             let a = &args[1..];
